@@ -74,7 +74,7 @@ func Walk(ctx context.Context, fileSystem fs.FS, prefix, delimiter, marker strin
 		return WalkResults{}, nil
 	}
 
-	err := fs.WalkDir(fileSystem, root, func(path string, d fs.DirEntry, err error) error {
+	err := walkDirKeyOrder(fileSystem, root, func(path string, d fs.DirEntry, err error) error {
 		if err != nil {
 			return err
 		}
@@ -250,15 +250,17 @@ func Walk(ctx context.Context, fileSystem fs.FS, prefix, delimiter, marker strin
 		// Common prefixes are a set, so should not have duplicates.
 		// These are abstractly a "directory", so need to include the
 		// delimiter at the end when we add to the map.
-		cprefNoDelim := prefix + before
 		cpref := prefix + before + delimiter
 		if cpref == marker {
 			pastMarker = true
 			return skipflag
 		}
 
-		if marker != "" && strings.HasPrefix(marker, cprefNoDelim) {
+		if marker != "" && cpref <= marker {
 			// skip common prefixes that are before the marker
+			return skipflag
+		}
+		if _, ok := cpmap[cpref]; ok {
 			return skipflag
 		}
 
@@ -305,6 +307,60 @@ func Walk(ctx context.Context, fileSystem fs.FS, prefix, delimiter, marker strin
 		Truncated:      truncated,
 		NextMarker:     newMarker,
 	}, nil
+}
+
+// walkDirKeyOrder is fs.WalkDir visiting siblings in the byte order of the
+// keys they stand for: a directory sorts as its name followed by "/".
+func walkDirKeyOrder(fsys fs.FS, root string, fn fs.WalkDirFunc) error {
+	info, err := fs.Stat(fsys, root)
+	if err != nil {
+		err = fn(root, nil, err)
+	} else {
+		err = walkDirKeyOrderRec(fsys, root, fs.FileInfoToDirEntry(info), fn)
+	}
+	if err == fs.SkipDir || err == fs.SkipAll {
+		return nil
+	}
+	return err
+}
+
+func walkDirKeyOrderRec(fsys fs.FS, name string, d fs.DirEntry, fn fs.WalkDirFunc) error {
+	if err := fn(name, d, nil); err != nil || !d.IsDir() {
+		if err == fs.SkipDir && d.IsDir() {
+			err = nil
+		}
+		return err
+	}
+	ents, err := fs.ReadDir(fsys, name)
+	if err != nil {
+		err = fn(name, d, err)
+		if err != nil {
+			if err == fs.SkipDir && d.IsDir() {
+				err = nil
+			}
+			return err
+		}
+	}
+	key := func(e fs.DirEntry) string {
+		if e.IsDir() {
+			return e.Name() + "/"
+		}
+		return e.Name()
+	}
+	sort.SliceStable(ents, func(i, j int) bool { return key(ents[i]) < key(ents[j]) })
+	for _, e := range ents {
+		child := name + "/" + e.Name()
+		if name == "." {
+			child = e.Name()
+		}
+		if err := walkDirKeyOrderRec(fsys, child, e, fn); err != nil {
+			if err == fs.SkipDir {
+				break
+			}
+			return err
+		}
+	}
+	return nil
 }
 
 // withinSkipdir reports whether path is one of the skipped directories or
